@@ -87,6 +87,16 @@ func c17Destinations() []string {
 			}
 		}
 	}
+	// dot segments in front of every short prefix: whatever removes them between
+	// the filter and the redirect (net/http cleans a relative path before it puts
+	// it in Location) moves the characters after them to the front
+	for _, head := range []string{"/.", "/..", "/x/..", "/./.", "/./..", "/x/y/../..", "/%2e", "/%2e%2e", "/.;", "/x/.."} {
+		for _, p := range short {
+			for _, b := range c17Bodies {
+				add(head + p + b)
+			}
+		}
+	}
 	// ordinary destinations (liveness)
 	for _, s := range c17Good() {
 		add(s)
@@ -340,7 +350,7 @@ func init() {
 	vfRegister(&vfeng.Check{
 		ID:    "C17",
 		Level: "model_checking",
-		Rule:  "exhaustive destination grammar (every prefix of length <=3 over 14 symbols, every C0 control and 9 non-printable Unicode runes at positions 0-2, scheme-like prefixes, absolute URLs starting with this server's own origin text followed by 13 authority-changing tails) x 4 bodies, plus every prefix of length <=2 x 4 bodies x 10 tails that force URL re-serialisation (invalid path characters, broken escapes) x every driven redirect site (login form/query/GET, TOTP, bootstrap OTP, VIP OTP, federated callback) on the real handlers' success paths; Location (as net/http puts it on the wire; conformance-checked through a real http.Server) resolved with WHATWG rules must stay on keymasterd's origin; plus every site x 10 accepted destinations x {host_identity configured, derived from the host name} x request Host {absent, own, own:443, alias, own:8443}; class = (site, outcome, destination class)",
+		Rule:  "exhaustive destination grammar (every prefix of length <=3 over 14 symbols, every C0 control and 9 non-printable Unicode runes at positions 0-2, scheme-like prefixes, absolute URLs starting with this server's own origin text followed by 13 authority-changing tails) x 4 bodies, plus every prefix of length <=2 x 4 bodies x 10 tails that force URL re-serialisation (invalid path characters, broken escapes), plus 9 dot-segment heads x every prefix of length <=2 x 4 bodies, x every driven redirect site (login form/query/GET, TOTP, bootstrap OTP, VIP OTP, federated callback) on the real handlers' success paths; Location (as net/http puts it on the wire; conformance-checked through a real http.Server) resolved with WHATWG rules must stay on keymasterd's origin; plus every site x 10 accepted destinations x {host_identity configured, derived from the host name} x request Host {absent, own, own:443, alias, own:8443}; class = (site, outcome, destination class)",
 		Assumptions: []string{"browser URL resolution is modelled by the WHATWG subset in whatwg.go", "net/http's header sanitisation (CR/LF to space, trim) is applied to recorder output and validated against a real http.Server on loopback for a sample of points and for every violation"},
 		Bounds: func(tier string) map[string]interface{} {
 			return map[string]interface{}{"destinations": len(c17Destinations()), "sites": len(c17Sites())}
